@@ -463,6 +463,173 @@ def r11_component_order(ctx, po, pb):
                 r.ok(f['qname'], site, acc[0], file=f['file'], line=c['l'])
 
 
+# ------------------------------------------------------------------------------------ R13-R15: the arms of the mechanism switches in the crypto back ends
+DIGEST_LEN = {'MD5': 16, 'SHA1': 20, 'SHA224': 28, 'SHA256': 32, 'SHA384': 48, 'SHA512': 64}
+
+
+def digest_tokens(name):
+    """Digest families a resolved name speaks about: AsymMech::RSA_SHA384_PKCS_PSS, HashAlgo::SHA384, AsymRSAMGF::MGF1_SHA384, EVP_sha384, "EMSA4(SHA-384,MGF1,", NID_sha384."""
+    n = name.upper().replace('-', '').replace('_', '')
+    out = set()
+    for t in ('SHA224', 'SHA256', 'SHA384', 'SHA512', 'MD5'):
+        if t in n:
+            out.add(t)
+    if re.search(r'SHA1(?!\d)|SHA160', n):
+        out.add('SHA1')
+    return out
+
+
+def crypto_switches(prog):
+    for f in sorted(prog.functions.values(), key=lambda f: (f['file'], f['line'])):
+        if '/crypto/' not in f['file'].replace('\\', '/') and not re.match(r'(OSSL|Botan)\w+::', f['qname']):
+            continue
+        if f['body'] is None:
+            continue
+        for n in walk(f['body']):
+            if n.get('k') == 'Switch':
+                yield f, n
+
+
+def arm_names(stmts):
+    """(names of enumerators / external callees / string literals, subtracted or assigned digest-length literals) in the statements of one arm"""
+    names, lits = [], []
+    for st in stmts:
+        for x in walk(st):
+            k = x.get('k')
+            if k == 'Var' and x.get('kind') == 'enum':
+                names.append(x.get('qname') or x['name'])
+            elif k == 'Call' and x.get('callee') and '::' not in x['callee']:
+                names.append(x['callee'])
+            elif k == 'Str':
+                names.append(x.get('s') or '')
+            elif k == 'Bin' and x.get('op') == '-' and x.get('b') is not None and x['b'].get('k') == 'Lit' and x['b'].get('v') in DIGEST_LEN.values():
+                lits.append(x['b']['v'])
+            elif k == 'Assign' and x['a'].get('k') == 'Var' and re.search(r'(?i)len', x['a']['name']) and x['b'].get('k') == 'Lit' and x['b'].get('v') in DIGEST_LEN.values():
+                lits.append(x['b']['v'])
+    return names, lits
+
+
+def r13_arm_digests(ctx, configs, rule_id='C20.R13'):
+    """An arm of a mechanism switch that is labelled with a digest (AsymMech::DSA_SHA384, HashAlgo::SHA384 ...) names only that digest: the hash it selects, the MGF it demands, the
+    EVP_sha* function or Botan EMSA string it uses, and the digest length it subtracts from the modulus length all belong to the digest of the label."""
+    r = ctx.rule(rule_id, 'every arm of a mechanism switch uses the digest its label names (hash, MGF, library function / EMSA string, digest length)', floor=80, engine='E1 table extraction (resolved enumerators and callees) + E7')
+    for cfg, prog in configs:
+        for f, sw in crypto_switches(prog):
+            any_arm = False
+            for labels, stmts in tables.switch_cases(sw):
+                lt = set()
+                for l in labels:
+                    lt |= digest_tokens(l)
+                if len(lt) != 1:
+                    continue
+                names, lits = arm_names(stmts)
+                bt = set()
+                for nm in names:
+                    bt |= digest_tokens(nm)
+                if not bt and not lits:
+                    continue
+                any_arm = True
+                want = next(iter(lt))
+                site = 'arm %s [%s]' % ('/'.join(l.split('::')[-1] for l in labels), cfg)
+                line = stmts[0].get('l') if stmts and stmts[0] else f['line']
+                wrong = sorted(bt - lt)
+                wronglen = sorted(v for v in lits if v != DIGEST_LEN[want])
+                if wrong:
+                    r.violation(f['qname'], site, 'the arm for %s uses %s: signatures / digests of this mechanism are computed with another hash than the mechanism names (they do not verify under an independent implementation or the other back end)' % (want, ', '.join(wrong)),
+                                file=f['file'], line=line)
+                elif wronglen:
+                    r.violation(f['qname'], site, 'the arm for %s works with a digest length of %s bytes, %s has %d' % (want, wronglen, want, DIGEST_LEN[want]), file=f['file'], line=line)
+                else:
+                    r.ok(f['qname'], site, 'names only %s' % want, file=f['file'], line=line)
+            if any_arm:
+                ctx.analysed(f)
+        # the per-digest classes (OSSLSHA384, OSSLHMACSHA384, BotanSHA384 ...): what they hand to the library is the digest of their name
+        for f in sorted(prog.functions.values(), key=lambda f: (f['file'], f['line'])):
+            ct = digest_tokens(f.get('class') or '')
+            if len(ct) != 1 or f['body'] is None or not re.match(r'(OSSL|Botan)', f.get('class') or ''):
+                continue
+            names, lits = arm_names([f['body']])
+            bt = set()
+            for nm in names:
+                bt |= digest_tokens(nm)
+            if not bt:
+                continue
+            ctx.analysed(f)
+            want = next(iter(ct))
+            site = 'digest of the class [%s]' % cfg
+            if bt - ct:
+                r.violation(f['qname'], site, 'the %s class uses %s' % (want, ', '.join(sorted(bt - ct))), file=f['file'], line=f['line'])
+            else:
+                r.ok(f['qname'], site, 'names only %s' % want, file=f['file'], line=f['line'])
+
+
+def r14_arm_effects(ctx, configs, rule_id='C20.R14'):
+    """Arms of one switch that consume the same fields of the mechanism parameter leave the same members of the algorithm object behind (the PSS arms all store the salt length that
+    signFinal / verifyFinal use later): an arm that reads the parameter but skips the store makes the final step work with a stale value."""
+    r = ctx.rule(rule_id, 'sibling arms of a mechanism switch that read the same parameter fields store the same members', floor=4, engine='E7 sibling agreement over mod-sets')
+    for cfg, prog in configs:
+        for f, sw in crypto_switches(prog):
+            arms = []
+            for labels, stmts in tables.switch_cases(sw):
+                reads, writes = set(), set()
+                for st in stmts:
+                    for x in walk(st):
+                        if x.get('k') == 'Member' and x.get('base', {}).get('k') != 'This' and (x.get('cast') or x.get('base', {}).get('cast') or '').find('PARAMS') >= 0:
+                            reads.add(x['field'])
+                        elif x.get('k') == 'Member' and x.get('base', {}).get('k') == 'Var' and x['base'].get('kind') == 'param':
+                            reads.add(x['field'])
+                        if x.get('k') == 'Assign':
+                            a = x['a']
+                            if a.get('k') == 'Member' and a.get('base', {}).get('k') == 'This':
+                                writes.add(a['field'])
+                            elif a.get('k') == 'Var' and a.get('kind') == 'field':
+                                writes.add(a['name'])
+                if reads:
+                    arms.append((labels, frozenset(reads), frozenset(writes), stmts))
+            groups = {}
+            for a in arms:
+                groups.setdefault(a[1], []).append(a)
+            for reads, members in groups.items():
+                if len(members) < 3:
+                    continue
+                ctx.analysed(f)
+                from collections import Counter
+                major = Counter(m[2] for m in members).most_common(1)[0][0]
+                for labels, _, writes, stmts in members:
+                    site = 'arm %s [%s]' % ('/'.join(l.split('::')[-1] for l in labels), cfg)
+                    line = stmts[0].get('l') if stmts and stmts[0] else f['line']
+                    missing = sorted(major - writes)
+                    if missing:
+                        r.violation(f['qname'], site, 'this arm reads the parameter fields %s like its %d siblings but does not store %s: the step that finishes the operation works with the value an earlier operation left in the object' % (
+                            '/'.join(sorted(reads)), len(members) - 1, '/'.join(missing)), file=f['file'], line=line)
+                    else:
+                        r.ok(f['qname'], site, 'stores %s' % ('/'.join(sorted(writes)) or 'nothing, like its siblings'), file=f['file'], line=line)
+
+
+ORDER_MEASURES = {'EC_GROUP_get_order', 'EC_GROUP_order_bits', 'get_order', 'get_order_bytes'}
+FIELD_MEASURES = {'EC_GROUP_get_degree', 'get_p_bytes', 'get_p_bits', 'get_p'}
+
+
+def r15_order_length(ctx, configs, rule_id='C20.R15'):
+    """ECDSA signatures are pairs of residues modulo the group order: the length every EC key class reports through getOrderLength() is measured by the order, not by the field
+    (secp160r1, secp224k1: the order is one octet longer), and is measured the same way by the public and the private key class."""
+    r = ctx.rule(rule_id, 'getOrderLength() of the EC key classes is measured by the group order', floor=2, engine='E8 value provenance')
+    for cfg, prog in configs:
+        for f in sorted(prog.functions.values(), key=lambda f: (f['file'], f['line'])):
+            if short(f['qname']) != 'getOrderLength' or f['body'] is None:
+                continue
+            callees = {short(c.get('callee') or '') for c in calls(f['body'])}
+            if not (callees & (ORDER_MEASURES | FIELD_MEASURES)):
+                continue        # Edwards / Montgomery keys: fixed lengths per curve
+            ctx.analysed(f)
+            site = 'measure [%s]' % cfg
+            if callees & FIELD_MEASURES:
+                r.violation(f['qname'], site, 'the length is taken from %s, the size of the field; r and s of an ECDSA signature are residues modulo the group order, which is longer or shorter on some curves (secp160r1, secp224k1, sect233k1): signatures get a length no other implementation accepts' % '/'.join(sorted(callees & FIELD_MEASURES)),
+                            file=f['file'], line=f['line'])
+            else:
+                r.ok(f['qname'], site, 'measured by %s' % '/'.join(sorted(callees & ORDER_MEASURES)), file=f['file'], line=f['line'])
+
+
 def run(ctx):
     po = ctx.prog('ossl-file')
     pb = ctx.prog('botan-file')
@@ -480,9 +647,22 @@ def run(ctx):
     r10_round_up(ctx, [('ossl-file', po), ('botan-file', pb)])
     r11_component_order(ctx, po, pb)
     c10.r10_secret_measure(ctx, [('ossl-file', po), ('botan-file', pb)], rule_id='C20.R12')
+    r13_arm_digests(ctx, [('ossl-file', po), ('botan-file', pb)])
+    r14_arm_effects(ctx, [('ossl-file', po), ('botan-file', pb)])
+    r15_order_length(ctx, [('ossl-file', po), ('botan-file', pb)])
 
 
 MUTANTS = [
+    dict(name='dsa-sha384-signs-with-sha512', rule='C20.R13', file='src/lib/crypto/OSSLDSA.cpp', after='bool OSSLDSA::signInit(',
+         old='\t\tcase AsymMech::DSA_SHA384:\n\t\t\thash = HashAlgo::SHA384;', new='\t\tcase AsymMech::DSA_SHA384:\n\t\t\thash = HashAlgo::SHA512;'),
+    dict(name='hmac-sha384-class-uses-sha512', rule='C20.R13', file='src/lib/crypto/OSSLHMAC.cpp', after='const EVP_MD* OSSLHMACSHA384::getEVPHash() const',
+         old='\treturn EVP_sha384();', new='\treturn EVP_sha512();'),
+    dict(name='rsa-pss-sha256-digest-length-48', rule='C20.R13', file='src/lib/crypto/OSSLRSA.cpp', after='bool OSSLRSA::signInit(',
+         old='(privateKey->getBitLength()+6)/8-2-32))', new='(privateKey->getBitLength()+6)/8-2-48))'),
+    dict(name='rsa-pss-verify-arm-skips-salt-length', rule='C20.R14', file='src/lib/crypto/OSSLRSA.cpp', after='bool OSSLRSA::verifyInit(',
+         old='\t\t\tsLen = ((RSA_PKCS_PSS_PARAMS*) param)->sLen;\n\t\t\tif (sLen > ((publicKey->getBitLength()+6)/8-2-64))', new='\t\t\tif (((RSA_PKCS_PSS_PARAMS*) param)->sLen > ((publicKey->getBitLength()+6)/8-2-64))'),
+    dict(name='ec-public-order-length-from-degree', rule='C20.R15', file='src/lib/crypto/OSSLECPublicKey.cpp', after='unsigned long OSSLECPublicKey::getOrderLength() const',
+         old='\t\tunsigned long len = BN_num_bytes(order);', new='\t\tunsigned long len = (EC_GROUP_get_degree(grp) + 7) / 8;'),
     dict(name='botan-rsa-crt-exponents-swapped', rule='C20.R11', config='botan-file', file='src/lib/crypto/BotanRSAPrivateKey.cpp', after='void BotanRSAPrivateKey::setFromBotan(',
          old='ByteString inDP1 = BotanUtil::bigInt2ByteString(inRSA->get_d1());', new='ByteString inDP1 = BotanUtil::bigInt2ByteString(inRSA->get_d2());'),
     dict(name='bn2bytestring-rounds-down', rule='C20.R10', file='src/lib/crypto/OSSLUtil.cpp', after='ByteString OSSL::bn2ByteString(',
